@@ -194,3 +194,46 @@ def _ne_oracle(args, run):
         return (kind, (not val) if kind == "return" else val)
 
     return _eq_oracle(args, run_eq)
+
+
+# ---- to_epsg: the cached code is pyproj's own answer at its default confidence (what makes the EPSG fast path of == sound) ------------
+
+
+def _lemma_to_epsg(state, code_default, code_lenient, projected):
+    m = repo(CRS)
+    log = []
+
+    class Recorder:
+        """stand-in pyproj CRS: to_epsg() answers code_default (0 = no code) at the default confidence and code_lenient
+        when asked to lower it -- a looser match that pyproj's == does NOT honour"""
+
+        is_projected = projected
+
+        def to_epsg(self, *a, **k):
+            log.append((a, k))
+            v = code_lenient if (a or k) else code_default
+            return None if (isinstance(v, int) and v == 0) else v
+
+    c = object.__new__(m.CRS)
+    c._crs, c._str = Recorder(), "whatever"
+    c._epsg = {"unset": m.EPSG_UNSET, "none": None, "known": 4326}[state]
+    r1 = c.to_epsg()
+    r2 = c.epsg
+    want = None if (isinstance(code_default, int) and code_default == 0) else code_default
+    if state == "unset":
+        claim(len(log) >= 1 and log[0] == ((), {}), "the code is looked up with pyproj's default confidence")
+        claim(all(call == ((), {}) for call in log), "... and never with a lowered one: a looser match is not an identity pyproj's == agrees with")
+        claim(r1 is want or r1 == want, "the answer is pyproj's")
+        claim(len(log) == 1 and (r2 is r1 or r2 == r1), "looked up once, then cached")
+    else:
+        claim(log == [] and r1 == {"none": None, "known": 4326}[state] and r2 == r1, "a cached answer is returned as is")
+
+
+lemma(
+    "crs.to_epsg_is_pyproj_default",
+    ["C01", "C19"],
+    inputs=dict(state=OneOf("unset", "none", "known"), code_default=OneOf(0, Int(ge=1)), code_lenient=Int(ge=1), projected=Bool()),
+    body=_lemma_to_epsg,
+    unstub=[f"{CRS}:CRS.to_epsg"],
+    note="the lazily cached EPSG code that CRS.__eq__'s fast path compares is exactly pyproj's default-confidence identification (the assumption 'pyproj == is consistent with EPSG codes' is about THAT code)",
+)
